@@ -379,7 +379,7 @@ func (d *driver) mixedClient(n int) {
 		default:
 			// a request for a key that was never built / is long gone
 			cmd := []string{"rebuild", "cancel", "dispose", "resolve"}[d.rnd.Intn(4)]
-			key := 11 + d.rnd.Intn(2)
+			key := 101 + d.rnd.Intn(2)
 			if cmd == "resolve" {
 				d.call("resolve", key, d.resolveRequest(key, "./leaf.js"), false, false, "")
 			} else {
